@@ -34,7 +34,9 @@ REQUIRE_CLAUSES = ["select_bad_id_refused", "select_pair", "rows_one_per_record"
 # chromosome id -> name; natural order == id order in every style
 CHROMS = [["chr1", "chr2", "chr3"], ["1", "2", "10"], ["chr2", "chr10", "chrX"]]
 DEFAULT_ARGS = {"sk": "none", "sn": "", "si": 0, "nk": "none", "nn": "", "ni": 0, "mind": -1, "skipsom": False,
-                "skiprej": False, "zn": 0, "zd": 0, "tboost": False, "above": -1, "pn": 0, "pd": 0, "src": "read"}
+                "skiprej": False, "zn": 0, "zd": 0, "tboost": False, "above": -1, "pn": 0, "pd": 0, "src": "read",
+                "route": "fresh"}
+ROUTES = ["fresh", "masked", "permuted", "offset"]
 
 HEADER = """##fileformat=VCFv4.2
 ##FILTER=<ID=PASS,Description="All filters passed">
@@ -152,6 +154,42 @@ def encode_table(varr, vcf, names):
     return rows, paired
 
 
+def route_table(cls, rows, cols, route):
+    """The ranges / segment / bin table with the SAME rows in the same order, built by one of several routes that differ
+    only in the row index: fresh (labels 0..n-1); masked (boolean-mask selection out of a larger table with decoy rows
+    in between: gapped labels); permuted (rows entered in another order and brought back by position, no reset_index);
+    offset (labels start at 1000)."""
+    import numpy as np
+    n = len(rows)
+    if route == "masked" and n:
+        big, keep = [], []
+        for k, r in enumerate(rows):
+            if k % 2 == 0:
+                big.append((r[0], r[1], r[1] + 1) + tuple(r[3:]))      # a decoy in front of every other row
+                keep.append(False)
+            big.append(r)
+            keep.append(True)
+        big.append((rows[-1][0], rows[-1][2], rows[-1][2] + 3) + tuple(rows[-1][3:]))
+        keep.append(False)
+        arr = cls.from_rows(big, columns=cols)[np.array(keep)]
+    elif route == "permuted" and n > 1:
+        perm = list(range(n))[::-1] if n < 4 else ([k for k in range(n) if k % 3 == 1] + [k for k in range(n) if k % 3 == 2]
+                                                  + [k for k in range(n) if k % 3 == 0])
+        arr = cls.from_rows([rows[k] for k in perm], columns=cols)
+        inv = [0] * n
+        for pos, k in enumerate(perm):
+            inv[k] = pos
+        arr.data = arr.data.iloc[inv]                                  # intended order again, labels stay permuted
+    else:
+        arr = cls.from_rows(rows, columns=cols) if n else cls([])
+        if route in ("offset", "permuted") and n:
+            arr.data.index = arr.data.index + 1000
+    got = [(c, int(a), int(b)) for c, a, b in zip(arr.data["chromosome"], arr.data["start"], arr.data["end"])]
+    if got != [(r[0], r[1], r[2]) for r in rows]:
+        raise MachineryError(f"table construction route {route} did not reproduce the rows")
+    return arr
+
+
 def _id_arg(kind, name, idx):
     return None if kind == "none" else (name if kind == "name" else int(idx))
 
@@ -219,15 +257,16 @@ def execute(inp):
         above = None if args["above"] < 0 else bool(args["above"])
         try:
             if op == "baf":
-                ranges = GA.from_rows([(names[g[0] - 1], g[1], g[2]) for g in segs]) if segs else GA([])
+                ranges = route_table(GA, [(names[g[0] - 1], g[1], g[2]) for g in segs], ["chromosome", "start", "end"],
+                                     args["route"])
                 out = varr.baf_by_ranges(ranges, above_half=above, tumor_boost=args["tboost"])
                 rec["out"] = [_obs(x) for x in list(out)]
             elif op == "call":
                 from cnvlib import call
                 cols = ["chromosome", "start", "end", "gene", "log2"]
                 # log2 on a dyadic grid; irrelevant to the baf column
-                cnarr = CNA.from_rows([(names[g[0] - 1], g[1], g[2], "-", ((j * 7) % 9 - 4) / 4) for j, g in enumerate(segs)],
-                                      columns=cols)
+                cnarr = route_table(CNA, [(names[g[0] - 1], g[1], g[2], "-", ((j * 7) % 9 - 4) / 4)
+                                          for j, g in enumerate(segs)], cols, args["route"])
                 purity = None if args["pd"] == 0 else args["pn"] / args["pd"]
                 res = call.do_call(cnarr, variants=varr, method=case.get("method", "none"), purity=purity,
                                    is_sample_female=True)
@@ -240,7 +279,7 @@ def execute(inp):
             elif op == "segment":
                 from cnvlib import segmentation
                 cols = ["chromosome", "start", "end", "gene", "log2", "weight"]
-                bins = CNA.from_rows([(names[g[0] - 1], g[1], g[2], "-", 0.0, 1.0) for g in segs], columns=cols)
+                bins = route_table(CNA, [(names[g[0] - 1], g[1], g[2], "-", 0.0, 1.0) for g in segs], cols, args["route"])
                 res = segmentation.do_segmentation(bins, "none", variants=varr, processes=1)
                 rec["segs"] = [[names.index(c) + 1, int(s), int(e)] for c, s, e in
                                zip(res.data["chromosome"], res.data["start"], res.data["end"])]
@@ -469,6 +508,7 @@ def generate(g):
         if args["src"] == "hets":
             args["mind"] = max(args["mind"], 0)
     args["tboost"] = boosted
+    args["route"] = g.get("route", "fresh")
     args["above"] = g.get("above", -1)
     if op == "call":
         p = g.get("purity", (0, 0))
@@ -562,6 +602,8 @@ def random_inputs(ctx: Ctx, n):
                      src=rng.choice(["read", "hets"]))
         else:
             g.update(op="boost", nrec=rng.choice(sizes[:9]), tboost=rng.random() < 0.8, src=rng.choice(["read", "hets"]))
+        if g["op"] in ("baf", "call", "segment"):
+            g["route"] = ROUTES[k % 4] if rng.random() < 0.85 else "fresh"
         out.append({"gen": g})
     # the upper end of the quantifier: 500 records
     for op in ("read", "hets", "baf"):
@@ -649,6 +691,8 @@ def _tabulate(ctx: Ctx, rec):
             ctx.bump("baf_with_tumor_boost")
         if op == "call" and a["pd"] > 0 and a["pn"] < a["pd"]:
             ctx.bump("purity_rescaled")
+        if a["route"] != "fresh" and len(rec["segs"]) > 1:
+            ctx.bump(f"range_table_{a['route']}_labels_{op}")
 
 
 SCOPES_QUICK = [("record", "{0}"), ("alleles", "{0}"), ("flags", "{0}"), ("somdepth", "{0}"), ("hets1", "{0}"), ("pair", "{0}"),
@@ -669,7 +713,9 @@ SCOPE_TEXT = {
             "zygosity_freq in {none, 1/4, 1/2, 0} x tumor_boost x min depth",
     "hets1": "one sample, two records of 5 calls each x SOMATIC x zygosity_freq x min depth through load_het_snps",
     "baf": "<= 3 variants (het/hom, freq 1/4, 1/2, 3/4, one optionally an insertion straddling a range edge) x "
-           "baf_by_ranges(above_half none/False/True), do_call(purity none, 1/2), mirrored_baf over 3 ranges",
+           "baf_by_ranges(above_half none/False/True), do_call(purity none, 1/2), mirrored_baf over 3 ranges x construction "
+           "route of the range / segment table (fresh 0..n-1 labels, boolean-mask filtered out of a larger table, permuted "
+           "labels, offset labels)",
     "boost": "<= 3 tumour/normal variants x 6 (t, n) frequency pairs x baf_by_ranges / mirrored_baf with tumor_boost, "
              "tumor_boost()",
 }
